@@ -6,5 +6,7 @@ INVARIANT Lossless
 INVARIANT Idempotent
 INVARIANT PlainKeeps
 INVARIANT ConfigsDistinct
+INVARIANT RelToDecides
+INVARIANT ConfigsLossless
 PROPERTY Immutable
 CHECK_DEADLOCK FALSE
